@@ -27,8 +27,11 @@ pub struct GenCtx {
     pub presence: Vec<bool>,
     /// dynamic dimensions chosen, in order
     pub dims: Vec<usize>,
-    /// matrix parts with plain entries: (ordinal of their first number in reading order, rows, columns)
-    pub shapes: Vec<(usize, usize, usize)>,
+    /// matrix parts whose entries print a fixed number of numbers: (ordinal of their first number in reading order,
+    /// rows, columns, numbers per entry)
+    pub shapes: Vec<(usize, usize, usize, usize)>,
+    /// dynamic dimensions to use, in order, instead of drawing them (wide and tall matrix parts)
+    pub dims_override: Vec<usize>,
 }
 
 #[derive(Clone, Copy, PartialEq)]
@@ -44,7 +47,7 @@ enum Force {
 
 impl GenCtx {
     pub fn new(seed: u64, max_dim: usize, simple: bool, present_permille: u32) -> Self {
-        GenCtx { rng: Rng::new(seed), max_dim, simple, present_permille, counter: 0, force: Force::None, lead: false, presence: vec![], dims: vec![], shapes: vec![] }
+        GenCtx { rng: Rng::new(seed), max_dim, simple, present_permille, counter: 0, force: Force::None, lead: false, presence: vec![], dims: vec![], shapes: vec![], dims_override: vec![] }
     }
     fn forced(&mut self) -> Option<f64> {
         let lead = std::mem::replace(&mut self.lead, false);
@@ -131,7 +134,13 @@ impl GenCtx {
             Some(n) => D::from_usize(n),
             None => {
                 // bounds above 64 mean "exactly this many" (long vector parts: batch and chunk boundaries)
-                let n = if self.max_dim > 64 { self.max_dim } else { self.rng.below(self.max_dim + 1) };
+                let n = if !self.dims_override.is_empty() {
+                    self.dims_override.remove(0)
+                } else if self.max_dim > 64 {
+                    self.max_dim
+                } else {
+                    self.rng.below(self.max_dim + 1)
+                };
                 self.dims.push(n);
                 D::from_usize(n)
             }
@@ -141,20 +150,22 @@ impl GenCtx {
 
 /// A type the simulator can build from a seed, with the reading its rendering must have.
 pub trait Gen: Sized + Display + Clone {
-    /// one number per entry (f64 / f32): the rows of a matrix part of such entries can be read off the text
-    const PLAIN: bool = false;
+    /// how many numbers one value of this type always prints, if that is fixed and its text contains no brackets or
+    /// line breaks of its own (floats: 1; scalar dual types over such types: parts x inner); None for vector types.
+    /// The rows of a matrix part of such entries can be read off the text.
+    const LEAVES: Option<usize> = None;
     fn gen(g: &mut GenCtx) -> (Self, Vec<Tok>);
 }
 
 impl Gen for f64 {
-    const PLAIN: bool = true;
+    const LEAVES: Option<usize> = Some(1);
     fn gen(g: &mut GenCtx) -> (Self, Vec<Tok>) {
         let v = g.f64();
         (v, vec![Tok::F64(v.to_bits())])
     }
 }
 impl Gen for f32 {
-    const PLAIN: bool = true;
+    const LEAVES: Option<usize> = Some(1);
     fn gen(g: &mut GenCtx) -> (Self, Vec<Tok>) {
         let v = g.f32();
         (v, vec![Tok::F32(v.to_bits())])
@@ -168,6 +179,10 @@ fn sym(s: &str) -> Tok {
 macro_rules! scalar_gen {
     ($ty:ident, [$($sym:literal),+]) => {
         impl<T: Gen + DualNum<F>, F: Display + Clone> Gen for $ty<T, F> {
+            const LEAVES: Option<usize> = match T::LEAVES {
+                Some(k) => Some(k * (1 + [$($sym),+].len())),
+                None => None,
+            };
             fn gen(g: &mut GenCtx) -> (Self, Vec<Tok>) {
                 let (re, mut toks) = T::gen(g);
                 let mut parts = Vec::new();
@@ -203,8 +218,8 @@ where
         return (Derivative::none(), vec![]);
     }
     let (nr, nc) = (r.value(), c.value());
-    if T::PLAIN && nr >= 2 && nc >= 2 {
-        g.shapes.push((g.counter as usize, nr, nc));
+    if let (Some(k), true) = (T::LEAVES, nr >= 2 && nc >= 2) {
+        g.shapes.push((g.counter as usize, nr, nc, k));
     }
     // most parts ordinary; some all-zero, all-equal, or with every entry's innermost real part zero
     g.force = match g.rng.below(100) {
@@ -288,7 +303,7 @@ pub struct Subject {
     pub expect: Vec<Tok>,
     pub presence: Vec<bool>,
     pub dims: Vec<usize>,
-    pub shapes: Vec<(usize, usize, usize)>,
+    pub shapes: Vec<(usize, usize, usize, usize)>,
 }
 
 fn make<T: Gen + Send + 'static>(name: &'static str, g: &mut GenCtx) -> Subject {
